@@ -1,105 +1,13 @@
 -------------------------- MODULE ClosurePotential --------------------------
 (***************************************************************************)
-(* Pair potentials and atomic closures of pyPRISM as DEFINITIONS, and the  *)
-(* objects that carry them as small state machines (properties C03, C09,   *)
-(* C10).                                                                   *)
-(*                                                                         *)
-(* Grid: points i = 1 .. L with r_i = i*dr.  All distances of the          *)
-(* specification are integers in HALF units of dr, so the grid point i     *)
-(* sits at 2i, a contact distance "sigma2" is on the grid iff it is even,  *)
-(* and the region of a grid point relative to a core is decided in         *)
-(* integer arithmetic:                                                     *)
-(*      inside   2i < sigma2     contact  2i = sigma2    outside 2i > s2   *)
-(* The statement of C10 is that CONTACT IS CORE for every pair alike.      *)
-(*                                                                         *)
-(* Values are terms (module Term) over the variables r, sigma, rcut, eps,  *)
-(* alpha, high (potentials; energy units) and gamma, u (closures; u is the *)
-(* potential divided by kT).  TLC decides, per object state and grid       *)
-(* point, WHICH term applies, reduces it exactly where it is rational      *)
-(* (distances in half units: r = 2i, sigma = sigma2), and checks the       *)
-(* property statements on the definitions themselves.  The harness binds   *)
-(* the variables to the real arrays and compares the real classes point by *)
-(* point.                                                                  *)
+(* The potential and closure OBJECTS of pyPRISM as small state machines    *)
+(* over the definitions of module ClosureDefs (properties C09, C10).       *)
 (***************************************************************************)
-EXTENDS Term, FiniteSets
+EXTENDS ClosureDefs
 
-CONSTANTS L,          \* number of grid points
-          Sigmas,     \* contact distances (half units) a user may set explicitly
+CONSTANTS Sigmas,     \* contact distances (half units) a user may set explicitly
           Cuts,       \* LJ cut-off distances (half units); 0 = no cut-off
           Diams       \* site diameters (half units) for sigma defaulting
-
-Pts == 1 .. L
-Unset == 0
-
-Region(i, s2) == IF 2 * i < s2 THEN "inside" ELSE IF 2 * i = s2 THEN "contact" ELSE "outside"
-InCore(i, s2) == 2 * i <= s2
-
-\* ------------------------------------------------------------------ potentials
-PotKinds  == {"HardSphere", "Exponential", "HardCoreLennardJones", "LennardJones", "WeeksChandlerAndersen"}
-CoreKinds == {"HardSphere", "Exponential", "HardCoreLennardJones"}
-
-r_     == TV("r")
-sigma_ == TV("sigma")
-rcut_  == TV("rcut")
-eps_   == TV("eps")
-alpha_ == TV("alpha")
-high_  == TV("high")
-
-SoverR(rr)  == TDiv(sigma_, rr)
-LJFull(rr)  == TMul(TMul(TI(4), eps_), TSub(TPow(SoverR(rr), 12), TPow(SoverR(rr), 6)))
-HCLJTail    == TMul(eps_, TSub(TPow(SoverR(r_), 12), TMul(TI(2), TPow(SoverR(r_), 6))))
-ExpTail     == TNeg(TMul(eps_, TExp(TNeg(TDiv(TSub(r_, sigma_), alpha_)))))
-
-\* the terms of every branch of every potential
-PotTerms ==
-    [HardSphere            |-> [core |-> high_, tail |-> TI(0)],
-     Exponential           |-> [core |-> high_, tail |-> ExpTail],
-     HardCoreLennardJones  |-> [core |-> high_, tail |-> HCLJTail],
-     LennardJones          |-> [full |-> LJFull(r_), shifted |-> TSub(LJFull(r_), LJFull(rcut_)), zero |-> TI(0)],
-     WeeksChandlerAndersen |-> [repulsive |-> TAdd(LJFull(r_), eps_), zero |-> TI(0)]]
-
-\* a potential object: kind, contact distance (Unset = None), LJ cut-off and shift flag
-PotBranch(p, i) ==
-    CASE p.kind \in CoreKinds -> IF InCore(i, p.sigma2) THEN "core" ELSE "tail"
-      [] p.kind = "LennardJones" ->
-            IF p.rcut2 = 0 THEN "full"
-            ELSE IF 2 * i > p.rcut2 THEN "zero"
-            ELSE IF p.shift THEN "shifted"
-            ELSE IF 2 * i = p.rcut2 THEN "full_atcut"     \* value at r = rcut exactly: u(rcut) or 0, not fixed by the statement
-            ELSE "full"
-      [] p.kind = "WeeksChandlerAndersen" ->                \* r <= 2^(1/6) sigma  <=>  r^6 <= 2 sigma^6 (never equal: irrational)
-            IF (2 * i) * (2 * i) * (2 * i) * (2 * i) * (2 * i) * (2 * i)
-                 <= 2 * p.sigma2 * p.sigma2 * p.sigma2 * p.sigma2 * p.sigma2 * p.sigma2
-            THEN "repulsive" ELSE "zero"
-
-BranchTerm(p, b) == IF b = "full_atcut" THEN PotTerms[p.kind]["full"] ELSE PotTerms[p.kind][b]
-
-\* exact instance: half units, eps = 3/2, alpha = 2, high = 10^6
-ExactEnv(p, i) == [r |-> <<2 * i, 1>>, sigma |-> <<p.sigma2, 1>>, rcut |-> <<p.rcut2, 1>>,
-                   eps |-> <<3, 2>>, alpha |-> <<2, 1>>, high |-> <<1000000, 1>>]
-PotExact(p, i) == REval(BranchTerm(p, PotBranch(p, i)), ExactEnv(p, i))
-
-\* ------------------------------------------------------------------ closures
-ClosKinds == {"PercusYevick", "PY", "HyperNettedChain", "HNC", "MeanSphericalApproximation", "MSA",
-              "MartynovSarkisov", "MS"}
-Canon(k) == CASE k \in {"PercusYevick", "PY"} -> "PY"
-              [] k \in {"HyperNettedChain", "HNC"} -> "HNC"
-              [] k \in {"MeanSphericalApproximation", "MSA"} -> "MSA"
-              [] k \in {"MartynovSarkisov", "MS"} -> "MS"
-g_ == TV("gamma")
-u_ == TV("u")
-
-ClosRel ==
-    [PY  |-> TMul(TSub(TExp(TNeg(u_)), TI(1)), TAdd(TI(1), g_)),
-     HNC |-> TSub(TSub(TExp(TSub(g_, u_)), TI(1)), g_),
-     MSA |-> TNeg(u_),
-     \* Martynov-Sarkisov: g = exp(sqrt(1 + 2(gamma - u)) - 1)  (Yethiraj-Schweizer change of variables) ...
-     MS  |-> TSub(TSub(TExp(TSub(TSqrt(TAdd(TI(1), TMul(TI(2), TSub(g_, u_)))), TI(1))), TI(1)), g_),
-     \* ... or the original form g = exp(-u + sqrt(1 + 2 gamma) - 1); a faithful implementation of either is accepted
-     MSalt |-> TSub(TSub(TExp(TSub(TSub(TSqrt(TAdd(TI(1), TMul(TI(2), g_))), TI(1)), u_)), TI(1)), g_)]
-ClosCore == TSub(TI(-1), g_)
-
-ClosBranch(c, i) == IF c.flag /\ InCore(i, c.sigma2) THEN "core" ELSE "rel"
 
 \* ------------------------------------------------------------------ state
 VARIABLES pot,     \* [kind, sigma2, rcut2, shift]
@@ -197,33 +105,6 @@ SigmaDefault ==
 \* evaluation never changes the object (repeatable)
 CalculatePure == [][last'.act = "Calculate" => (pot' = pot /\ clo' = clo)]_vars
 
-\* ------------------------------------------------------------------ statements about the closure definitions
-Zero2 == [gamma |-> RZero, u |-> RZero]
-AllRel == {"PY", "HNC", "MSA", "MS", "MSalt"}
-\* C09: correlations can decay to zero: c(0, 0) = 0 ...
-VanishAtZero == \A k \in AllRel : REval(ClosRel[k], Zero2) = RZero
-\* ... and c = -u + second order: dc/du = -1, dc/dgamma = 0 at the origin
-WeakCoupling == \A k \in AllRel : /\ REval(Diff(ClosRel[k], "u"), Zero2) = <<-1, 1>>
-                                  /\ REval(Diff(ClosRel[k], "gamma"), Zero2) = RZero
-GammaSamples == {<<-2, 1>>, RZero, <<1, 2>>, <<3, 1>>}
-\* C03/C09: inside the core of a flagged closure c + gamma = -1 whatever the potential
-CoreBranchValue == \A g \in GammaSamples : REval(TAdd(ClosCore, g_), [gamma |-> g]) = <<-1, 1>>
-\* C03: PY and HNC give -1 - gamma on an overlap value WITHOUT the flag, because exp(-high/kT) underflows to 0
-\*      (assumption made explicit: high/kT >= 746 + gamma); MSA and MS do not (documented)
-UnflaggedOnOverlap ==
-    \A g \in GammaSamples : \A kT \in {1, 1000} :
-        LET env == [gamma |-> g, u |-> <<1000000 \div kT, 1>>]
-        IN  /\ REval(ClosRel["PY"], env)  = RSub(<<-1, 1>>, g)
-            /\ REval(ClosRel["HNC"], env) = RSub(<<-1, 1>>, g)
-            /\ REval(ClosRel["MSA"], env) # RSub(<<-1, 1>>, g)
-HardCorePair(ck, flag, pk) == flag \/ (pk \in CoreKinds /\ Canon(ck) \in {"PY", "HNC"})
-\* C03: the composition potential -> closure at a core point, for every hard-core pair
-HardCoreValue ==
-    \A ck \in {"PY", "HNC", "MSA", "MS"}, flag \in BOOLEAN, pk \in CoreKinds, g \in GammaSamples :
-        HardCorePair(ck, flag, pk) =>
-            LET c == IF flag THEN ClosCore
-                     ELSE Subst(ClosRel[ck], "u", TDiv(PotTerms[pk]["core"], TV("kT")))
-            IN  REval(c, [gamma |-> g, high |-> <<1000000, 1>>, kT |-> <<2, 1>>]) = RSub(<<-1, 1>>, g)
 \* C09: a flagged closure applies the relation strictly outside sigma only; unflagged everywhere
 ClosureBranches ==
     \A i \in Pts : ClosBranch(clo, i) = "core" <=> (clo.flag /\ Region(i, clo.sigma2) # "outside")
